@@ -8,7 +8,7 @@ from checks import _ops
 
 PROPERTY = "C03"
 LEVEL = "translation_validation"
-CASE_TIMEOUT = {"quick": 420, "thorough": 1500}
+CASE_TIMEOUT = {"quick": 420, "thorough": 600}
 ENCODED = [
     "cirkit.symbolic.functional.integrate",
     "cirkit.symbolic.operators.integrate_embedding_layer/integrate_categorical_layer/integrate_gaussian_layer",
@@ -109,6 +109,13 @@ def cases(tier, seed):
                 d = dict(c)
                 d["semiring"] = s
                 out.append(d)
+        for i_, c in enumerate(_ops.random_pipes(seed, 150, "integrate")):
+            d = dict(c)
+            ss_ = ["sum-product", "lse-sum", "complex-lse-sum"]
+            d["semiring"] = ss_[i_ % len(ss_)]
+            if d.pop("no_complex", False) and d["semiring"] == "complex-lse-sum":
+                d["semiring"] = "sum-product"
+            out.append(d)
     return out
 
 
